@@ -59,7 +59,8 @@ def gen_cases(ctx):
             b = Fraction(rng.randint(-256, 512), 256)
             g = max(abs(1 - a) + abs(a), abs(1 - b) + abs(b), 1)
             vmax = max(abs(x) for r in rows for x in r)
-            tol = 5 * (n + 1) * U * vmax * g ** n
+            # consequences of the proved bounds (majorant <= vmax g^n): specialize (3n roundings), generic subdivision (4n+2)
+            tol = max((3 * n + 1) * g ** n, 4 * n + 3) * U * vmax
             cases.append({"n": n, "rows": rows, "a": a, "b": b, "tol": tol, "stream": "bound"})
     return cases
 
@@ -102,13 +103,29 @@ def judge_spec(c, op, cfg, raw):
     g = max(abs(1 - c["a"]) + abs(c["a"]), abs(1 - c["b"]) + abs(c["b"]), 1)
     for i, row in enumerate(c["rows"]):
         want = oq.specialize(row, c["a"], c["b"])
-        vmax = max([abs(x) for x in row] + [Fraction(1, 2 ** 60)])
-        tol = 5 * (n + 1) * U * vmax * g ** n
+        maj = spec_majorant(row, c["a"], c["b"])
         for j in range(n + 1):
+            tol = (3 * n + 1) * U * maj[j]          # PROVED: ((1+u)^(3n) - 1) * majorant (C04_specialize_rounding_bound)
             if abs(out[i][j] - want[j]) > tol:
-                return "control point %d of row %d is %s, exact reparametrization gives %s (allowance %s)" % (
+                return "control point %d of row %d is %s, exact reparametrization gives %s (proved allowance %s)" % (
                     j, i, float(out[i][j]), float(want[j]), float(tol))
     return None
+
+
+def spec_majorant(row, a, b):
+    """Pabs of theorem C04_specialize_rounding_bound: the same rounds on absolute values (node j: n-j rounds with |1-a|,|a|, then j with |1-b|,|b|)"""
+    n = len(row) - 1
+    def rnd(v, t):
+        return [abs(1 - t) * v[i] + abs(t) * v[i + 1] for i in range(len(v) - 1)]
+    out = []
+    for j in range(n + 1):
+        v = [abs(x) for x in row]
+        for _ in range(n - j):
+            v = rnd(v, a)
+        for _ in range(j):
+            v = rnd(v, b)
+        out.append(v[0])
+    return out
 
 
 def judge_sub(c, op, cfg, raw):
@@ -120,10 +137,11 @@ def judge_sub(c, op, cfg, raw):
     for i, row in enumerate(c["rows"]):
         wl = oq.specialize(row, 0, Fraction(1, 2))
         wr = oq.specialize(row, Fraction(1, 2), 1)
-        vmax = max([abs(x) for x in row] + [Fraction(1, 2 ** 60)])
-        tol = 5 * (n + 1) * U * vmax
+        ml = oq.specialize([abs(x) for x in row], 0, Fraction(1, 2))
+        mr = oq.specialize([abs(x) for x in row], Fraction(1, 2), 1)
         for j in range(n + 1):
-            if abs(left[i][j] - wl[j]) > tol or abs(right[i][j] - wr[j]) > tol:
+            # PROVED for the generic path: ((1+u)^(4n+2) - 1) * majorant (C04_subdivide_rounding_bound)
+            if abs(left[i][j] - wl[j]) > (4 * n + 3) * U * ml[j] or abs(right[i][j] - wr[j]) > (4 * n + 3) * U * mr[j]:
                 return "half control point %d of row %d off: left %s vs %s, right %s vs %s" % (
                     j, i, float(left[i][j]), float(wl[j]), float(right[i][j]), float(wr[j]))
         if left[i][n] != right[i][0]:
